@@ -449,6 +449,77 @@ impl CaseSpace for Mutations {
     }
 }
 
+// ---------------------------------------------------------------------------------------
+// segments carried by the confirmed link service, with retransmitted frames
+// ---------------------------------------------------------------------------------------
+
+/// The peer uses CONFIRMED_USER_DATA (after RESET_LINK_STATES, frame count bit alternating
+/// from 1) and repeats one frame with the same frame count bit once or twice (a lost ACK).
+/// The repetition is not a new segment: both fragments arrive exactly as sent.
+struct ConfirmedService;
+
+const CS_LENS: [usize; 6] = [1, 249, 250, 349, 498, 747];
+
+impl CaseSpace for ConfirmedService {
+    fn name(&self) -> String {
+        "confirmed-link-service-with-retransmissions".to_string()
+    }
+    fn total(&self) -> usize {
+        // fragment length x (which frame is repeated: none, or index 0..=4 over both fragments) x repeats
+        CS_LENS.len() * 6 * 2
+    }
+    fn run(&self, index: usize, transcript: bool) -> RunResult {
+        let mut res = RunResult::default();
+        let len = CS_LENS[index % CS_LENS.len()];
+        let i = index / CS_LENS.len();
+        let which = i % 6; // 0 = none
+        let repeats = 1 + (i / 6) % 2;
+        res.obs = index as u64 + 484848;
+        let frag = body(len, 5);
+        let tail = body(3, 9);
+        let mut segs = transport::segment(&frag, 7);
+        let n_first = segs.len();
+        segs.extend(transport::segment(&tail, (7 + n_first as u8) & 0x3F));
+        let mut stream: Vec<u8> = link::frame(link::DIR | link::PRM | link::PRI_RESET_LINK_STATES, OWN, PEER, &[]);
+        let mut fcb = true;
+        let mut repeated = false;
+        for (k, sgm) in segs.iter().enumerate() {
+            let ctrl = link::DIR | link::PRM | link::FCV | if fcb { link::FCB } else { 0 } | link::PRI_CONFIRMED_USER_DATA;
+            let f = link::frame(ctrl, OWN, PEER, sgm);
+            stream.extend(&f);
+            if which != 0 && k == (which - 1).min(segs.len() - 1) && !repeated {
+                repeated = true;
+                for _ in 0..repeats {
+                    stream.extend(&f);
+                }
+            }
+            fcb = !fcb;
+        }
+        let mut r = TransportReaderSeam::new(false, OWN, false, true, false, 2048, false);
+        r.handle.push(&stream);
+        let (got, err) = r.drain();
+        res.transitions += segs.len() + repeats;
+        if transcript {
+            res.transcript.push(format!("fragment of {len} octets in {n_first} confirmed frames + a 3-octet fragment; frame {:?} repeated {repeats}x: {} deliveries, error {err:?}", if which == 0 { None } else { Some((which - 1).min(segs.len() - 1)) }, got.len()));
+        }
+        let ok = err.is_none()
+            && got.len() == 2
+            && matches!(&got[0], TransportOut::Fragment { id: 0, src, broadcast: None, data } if *src == PEER && *data == frag)
+            && matches!(&got[1], TransportOut::Fragment { id: 1, src, broadcast: None, data } if *src == PEER && *data == tail);
+        if !ok {
+            res.violation = Some(Violation::new(
+                "C08.L1",
+                "fragments-carried-by-confirmed-frames-not-delivered-identically",
+                format!("length {len}, frame {:?} sent {}x with the same frame count bit: {} deliveries, error {err:?}", if which == 0 { None } else { Some((which - 1).min(segs.len() - 1)) }, repeats + 1, got.len()),
+            ));
+            return res;
+        }
+        res.nontrivial = true;
+        res.model_states.push((n_first * 8 + which) as u64);
+        res
+    }
+}
+
 pub fn replay(name: &str, path: &[usize]) -> Option<RunResult> {
     for tier in ["quick", "thorough"] {
         let w = build_writer(tier);
@@ -460,6 +531,9 @@ pub fn replay(name: &str, path: &[usize]) -> Option<RunResult> {
             return Some(m.run(path[0], true));
         }
     }
+    if ConfirmedService.name() == name {
+        return Some(ConfirmedService.run(path[0], true));
+    }
     None
 }
 
@@ -467,9 +541,10 @@ pub fn check(tier: &str) -> i32 {
     let mut c = Check::new("C08", tier);
     c.cases(&build_writer(tier));
     c.cases(&build_mutations(tier));
+    c.cases(&ConfirmedService);
     c.finish(
         "model_checking",
-        "writer: fragment lengths (every multiple of 249 +-1, 1, 2, 2047, 2048 quick; every length 1..=2048 thorough) x starting transport sequence numbers (6 quick incl. the wrap; all 64 thorough), output compared byte for byte with the reference segmenter and fed to the real transport Reader (link Layer + Assembler) whole, per frame, split inside the first and last frame and bytewise; reader: all applications of <= 2 (3 for 250/498/747-byte fragments in the thorough tier) operators from {drop, duplicate, swap, re-address, clear FIR, set FIR, interleave a second sender, overflow the buffer, turn a segment into a broadcast, skip a sequence number, reset the session before a segment} at the structural positions of the segment streams of fragments of 1/249/250/498/747/2048 bytes into receive buffers 249/250/498/2048, each followed by a clean fragment; deliveries must equal the reference reassembler's exactly (bytes, source, broadcast class) with consecutive fragment ids; non-trivial = at least one operator applied or a multi-chunk round trip; distinct = distinct input",
+        "writer: fragment lengths (every multiple of 249 +-1, 1, 2, 2047, 2048 quick; every length 1..=2048 thorough) x starting transport sequence numbers (6 quick incl. the wrap; all 64 thorough), output compared byte for byte with the reference segmenter and fed to the real transport Reader (link Layer + Assembler) whole, per frame, split inside the first and last frame and bytewise; reader: all applications of <= 2 (3 for 250/498/747-byte fragments in the thorough tier) operators from {drop, duplicate, swap, re-address, clear FIR, set FIR, interleave a second sender, overflow the buffer, turn a segment into a broadcast, skip a sequence number, reset the session before a segment} at the structural positions of the segment streams of fragments of 1/249/250/498/747/2048 bytes into receive buffers 249/250/498/2048, each followed by a clean fragment; deliveries must equal the reference reassembler's exactly (bytes, source, broadcast class) with consecutive fragment ids; confirmed link service: fragments of 1/249/250/349/498/747 octets in CONFIRMED_USER_DATA frames after a link reset, one frame repeated once or twice with the same frame count bit; non-trivial = at least one operator applied or a multi-chunk round trip; distinct = distinct input",
         &["operators are applied at the first, second, middle, last-but-one and last segment"],
         serde_json::json!({}),
     )
